@@ -45,7 +45,7 @@ def run(ctx):
     ctx.assume("tzid_from_dt contract: None / 'UTC' / zone key for naive / UTC / zoned values")
     _type_table(ctx)
     _value_tag(ctx)
-    _list_forward(ctx)
+    # (vDDDLists forwarding VALUE/TZID: decided by C02/VALUE-TAG on RDATE/EXDATE lists)
     _accum(ctx)
     from .c03 import layout_rule
     layout_rule(ctx, "C02/LAYOUT")
